@@ -96,3 +96,62 @@ pub proof fn lemma_br_shr32_u64(e: u64)
 {
     assert((e >> 32u32) == e / 0x1_0000_0000 && (e >> 32u32) <= 0xffff_ffff) by (bit_vector);
 }
+
+// ---- <u32 as NormalizedRootRem>::normalized_sqrt_rem (steps 1-4): the estimate depends on ALL 32 bits of n ------------------------
+// TRUSTED: `axiom_br_sq32_estimate` -- `br_sq32_ok(n)` for every n in [2^30, 2^32), established by the exhaustive native run
+// `tools/base_root_exhaust.rs u32` (all 3 * 2^30 inputs), which evaluates exactly the predicate below on the pinned table.
+
+pub open spec fn br_p16() -> int { 0x1_0000 }
+pub open spec fn br_sq32_r0(n: int) -> int { 0x100 + br_rsqrt_tab()[(n / 0x1_0000) / 0x200 - 32] }
+/// step 2: r1 = ((3 r0) << 5) - (hi32(n * r0^3) >> 11)
+pub open spec fn br_sq32_a(n: int) -> int { 3 * br_sq32_r0(n) * 32 }
+pub open spec fn br_sq32_b(n: int) -> int { ((n * (br_sq32_r0(n) * br_sq32_r0(n) * br_sq32_r0(n))) / br_p32()) / 0x800 }
+pub open spec fn br_sq32_r1(n: int) -> int { br_sq32_a(n) - br_sq32_b(n) }
+/// step 3: r = r1 << 1, s1 = sat16(2 * hi16(r * n16)), s0 = s1 - 4
+pub open spec fn br_sq32_r(n: int) -> int { 2 * br_sq32_r1(n) }
+pub open spec fn br_sq32_h(n: int) -> int { (br_sq32_r(n) * (n / 0x1_0000)) / br_p16() }
+pub open spec fn br_sq32_s1(n: int) -> int { if 2 * br_sq32_h(n) > 0xffff { 0xffff } else { 2 * br_sq32_h(n) } }
+pub open spec fn br_sq32_s0(n: int) -> int { br_sq32_s1(n) - 4 }
+/// step 4: e = n - s0^2, s = s0 + hi16((e >> 16) * r)
+pub open spec fn br_sq32_e(n: int) -> int { n - br_sq32_s0(n) * br_sq32_s0(n) }
+pub open spec fn br_sq32_s(n: int) -> int { br_sq32_s0(n) + ((br_sq32_e(n) / br_p16()) * br_sq32_r(n)) / br_p16() }
+
+pub open spec fn br_sq32_ok(n: int) -> bool {
+    &&& 0 <= br_sq32_b(n) <= br_sq32_a(n)                               // step 2 does not underflow
+    &&& br_sq32_r1(n) < 0x8000                                           // `r << 1` loses nothing
+    &&& 0 <= br_sq32_h(n) && br_sq32_s1(n) >= 4                          // `s -= 4` does not underflow
+    &&& br_sq32_e(n) >= 0                                                // `self - s*s` does not underflow
+    &&& 0 <= br_sq32_s(n) < 0x1_0000                                     // `s += ..` does not overflow
+    &&& br_sq32_s(n) * br_sq32_s(n) <= n                                 // s is an underestimate of the root
+}
+
+/// TRUSTED: see above
+#[verifier::external_body]
+pub proof fn axiom_br_sq32_estimate(n: int)
+    requires 0x4000_0000 <= n < 0x1_0000_0000,
+    ensures br_sq32_ok(n),
+{
+}
+
+pub proof fn lemma_br_sq32_bits(n: u32, n16: u16, t: u8, r0: u32)
+    requires n >= 0x4000_0000, n16 == (n >> 16u32) as u16, r0 == 0x100 | t as u32,
+    ensures n16 as int == (n as int) / 0x1_0000, n16 >= 0x4000,
+        32 <= (n16 >> 9u32) < 128, (n16 >> 9u32) as int == (n16 as int) / 0x200,
+        r0 as int == 0x100 + t as int, r0 < 512,
+{
+    assert((n >> 16u32) == n / 0x1_0000 && (n >> 16u32) <= 0xffff && (n >> 16u32) >= 0x4000) by (bit_vector)
+        requires n >= 0x4000_0000u32;
+    assert(32 <= (n16 >> 9u32) < 128 && (n16 >> 9u32) == n16 / 0x200) by (bit_vector) requires n16 >= 0x4000u16;
+    assert(r0 == 0x100 + t as u32 && r0 < 512) by (bit_vector) requires r0 == 0x100 | t as u32;
+}
+
+pub proof fn lemma_br_sq32_shifts(x3: u16, w: u32, r1: u16, e: u32)
+    requires x3 < 2048, w < 0x800_0000, r1 < 0x8000,
+    ensures (x3 << 5u32) as int == x3 as int * 32, ((w >> 11u32) as u16) as int == (w as int) / 0x800,
+        (r1 << 1u32) as int == 2 * r1 as int, ((e >> 16u32) as u16) as int == (e as int) / 0x1_0000,
+{
+    assert((x3 << 5u32) == x3 * 32) by (bit_vector) requires x3 < 2048;
+    assert((w >> 11u32) == w / 0x800 && (w >> 11u32) <= 0xffff) by (bit_vector) requires w < 0x800_0000u32;
+    assert((r1 << 1u32) == 2 * r1) by (bit_vector) requires r1 < 0x8000;
+    assert((e >> 16u32) == e / 0x1_0000 && (e >> 16u32) <= 0xffff) by (bit_vector);
+}
